@@ -743,4 +743,12 @@ def rule_validator_exception_reaches_caller(ctx: Ctx):
     c04.rule_stopiteration_safe(ctx, rule="C01.reject")
 
 
-RULES = [rule_loop, rule_none, rule_match, rule_allof, rule_expected, rule_reject, rule_write, rule_copied_guards, rule_decided_at_dequeue, rule_stored_callable, rule_awaited_verdict, rule_validator_exception_reaches_caller]
+def rule_no_stale_events(ctx: Ctx):
+    """C01.reject: an event is selected on the state its own history produced: events left in the queue by a failed event (any
+    failure, not only a refused one) would run in front of the next event the user sends and move the machine first."""
+    from . import c04
+
+    c04.rule_clear(ctx, rule="C01.reject")
+
+
+RULES = [rule_loop, rule_none, rule_match, rule_allof, rule_expected, rule_reject, rule_write, rule_copied_guards, rule_decided_at_dequeue, rule_stored_callable, rule_awaited_verdict, rule_validator_exception_reaches_caller, rule_no_stale_events]
